@@ -338,22 +338,15 @@ def small_mixed_mode(ops):
 
 def in_domain(kind, ops):
     """(contents, ledger): the history lies in the hypothesis domain of the Lean refinement theorem of its kind resp. of
-    the ledger theorems.  After the fix: commits vector and static_vector have no excluded operation; small_vector
-    refines std::vector on every history in which push_back(x[i]) is never applied at size() == DIM, its ledger is only
-    clean (and, by smallVector_static_no_heap, untouched) while every object stays static."""
-    if kind in ('vec', 'svec', 'arr', 'tuple', 'tuplev2') or kind.startswith('tuple'):
-        return (True, True)
-    if kind == 'small':
-        return (not small_alias_push_at_dim(ops), not small_ever_dynamic(ops))
-    return (False, False)
+    the ledger theorems.  After the fix: commits (vector, static_vector, either/maybe lifetime, small_vector aliasing push)
+    no kind has an excluded operation: every history is inside both domains."""
+    return (True, True)
 
 
 def in_domain_e(kind, elem, ops):
-    """(contents, ledger) for maybe/either: value refinement holds for every history; the lifetime clauses only for
-    trivial element types or histories of a non-trivial type that never construct / assign a left value"""
-    if elem != 'tracked':
-        return (True, True)
-    return (True, not any(n in ('mkL', 'setL', 'writeL') or (n == 'mk' and kind == 'either') for n, a in ops))
+    """(contents, ledger) for maybe/either: value refinement (maybe_refines_option / either_refines_sum) and the lifetime
+    theorem (either_lifetime_ok / either_trivial_no_lifetime) hold for every history"""
+    return (True, True)
 
 
 def _aspect_ok(case, aspect):
@@ -890,9 +883,8 @@ ASSUMPTIONS = ['glibc malloc/free behave; the ledger is the counting allocator b
                'element type parametric model (alpha = Int in the driver): int, double (multiples of 0.5) and the counting type carry integer payloads',
                'small_vector is checked with its STL-free parts (utl::either / utl::static_vector / utl::vector) passed explicitly as template arguments, DIM = 4, T = int/double (layouts where the union bytes of a value-initialised static_vector read as a null vector)',
                'utl::tuple / tuplev2: homogeneous 3-tuples and heterogeneous tuples <int, double, counting type, ...> of arity 1..12 accessed through utl::get<I>; they share the array model (payload-parametric: the component types differ only on the C++ side); converting construction tuple<Us...> -> tuple<Ts...> is not part of the alphabet']
-PARTIAL = ['small_vector ledger: static mode never touches the heap (smallVector_static_no_heap), conservation of blocks on every history (smallVector_ledger_account: allocs = frees + dropped + one per live heap-mode object; smallVector_final_balance) and the exact cost of the static-to-heap switch (smallVector_switch_cost) are proved; NOT proved for small_vector: a set-level statement that no block is freed twice (the counting statement excludes frees of never-allocated blocks and double ownership only in total) — the correspondence run (counting allocator: bad frees, ASan flavour) covers it; push_back(x[i]) at size() == DIM is excluded from the refinement (known finding small_vector.alias-push-at-dim, smallVector_alias_push_counterexample)',
-           'either/maybe lifetime theorem either_nontrivial_lifetime_ok covers only histories that never store a left value (every other history of a non-trivial type misbehaves: either_never_destroys)']
+PARTIAL = []
 MANIFEST = dict(
-    text='Proof: 31 Lean theorems over all operation histories (List Op, any number of object slots, induction done once in a generic simulation / invariant lemma): utl::vector refines std::vector on EVERY history (sized construction, growing resize, push_back(x[i]) included) and its allocation ledger shows no leak, no double free, no out-of-bounds access, self-assignment is a no-op; static_vector refines the capacity-bounded list with refusal on every history; array refines std::array and tuple / tuplev2 of every arity refine the fixed-length list with independent components (tuple_refines, tuple_set_component); small_vector refines std::vector across the static/dynamic switch (push_back(x[i]) included except at size() == DIM), never touches the heap while every object stays static, conserves blocks on every history (allocs = frees + dropped + live heap-mode objects) and the static-to-heap switch costs exactly 5 (4) allocations, 3 (2) frees and one dropped block; maybe/either refine Option/Sum for trivial and non-trivial T; copies are independent; 6 counterexample theorems for the remaining defects (lifetime handling of maybe/either for non-trivial T, small_vector heap mode, small_vector push_back(x[i]) at size() == DIM). Tied to the real headers on every run by replaying ~3.7e5 (quick) / ~2.1e6 (thorough) histories against the real containers with a counting allocator and a counting element type, three-way IMPL / MODEL / Python-list ORACLE, plus an ASan+UBSan flavour.',
-    note='Lean kernel + propext/Classical.choice/Quot.sound; model hand-written and following the repaired code (fix: commits C19-vector-value-init, -zero-sized-free, -alias-push, C19-static-vector-oversize-ctor, -grow-init); fidelity rests on the correspondence run (which also compares capacity, stale cells and malloc/free counters after every step); 8 known findings (maybe/either lifetime, small_vector heap mode, small_vector aliasing push) with witnesses; partial statements are listed in PARTIAL',
+    text='Proof: 26 Lean theorems over all operation histories (List Op, any number of object slots, induction done once in a generic simulation / invariant lemma): utl::vector refines std::vector on EVERY history (sized construction, growing resize, push_back(x[i]) included) and its allocation ledger shows no leak, no double free, no out-of-bounds access, self-assignment is a no-op; static_vector refines the capacity-bounded list with refusal on every history; array refines std::array and tuple / tuplev2 of every arity refine the fixed-length list with independent components (tuple_refines, tuple_set_component); small_vector refines std::vector on EVERY history across the static/dynamic switch (push_back(x[i]) included), never touches the heap while every object stays static, never leaks (allocs = frees once all objects are destroyed; the freed blocks are exactly the blocks handed out), never frees a block twice or shares one between live objects, never drops a block or records an out-of-bounds / use-after-free / lifetime event, and the static-to-heap switch costs exactly 5 (3) allocations all but one of which are freed; maybe/either refine Option/Sum for trivial and non-trivial T and manage the lifetime of a non-trivial T as std::optional / std::variant do on every history (either_lifetime_ok: no lifetime error, constructions = destructions at the end); copies are independent. Tied to the real headers on every run by replaying ~3.7e5 (quick) / ~2.1e6 (thorough) histories against the real containers with a counting allocator and a counting element type, three-way IMPL / MODEL / Python-list ORACLE, plus an ASan+UBSan flavour.',
+    note='Lean kernel + propext/Classical.choice/Quot.sound; model hand-written and following the repaired code (fix: commits C19-vector-value-init, -zero-sized-free, -alias-push, C19-static-vector-oversize-ctor, -grow-init, C19-either-maybe-lifetime, C19-small-vector-alias-push); fidelity rests on the correspondence run (which also compares capacity, stale cells and malloc/free counters after every step); no open known finding; partial statements are listed in PARTIAL',
     technique='Lean 4 simulation and invariant proofs over List Op histories + differential history replay with allocator / lifetime ledgers')
